@@ -110,6 +110,19 @@ static void exercise_table(struct cds_lfht **keep)
 	ret = cds_lfht_destroy(ht, NULL);
 	if (ret)
 		usim_fail("lfht-destroy", "cds_lfht_destroy of an emptied table failed (%d)", ret);
+	/*
+	 * The teardown of an auto-resize table is handed to the resize worker: that work has
+	 * to run (in a forked child too), or the table leaks and the process cannot exit.
+	 * The engine's liveness budget decides; qsbr: the worker's grace periods need us offline.
+	 */
+	usim_set_op("%s: waits for the resize worker to finish the deferred destroy of its table", in_child ? child_tag : "parent");
+	if (F->is_qsbr)
+		F->thread_offline();
+	while (usim_mem_is_live(ht))
+		usleep(1000);
+	if (F->is_qsbr)
+		F->thread_online();
+	usim_probe("fork.deferred_table_destroy_completed");
 }
 
 static void read_section(int me)
@@ -260,7 +273,7 @@ static void *bp_reader(void *arg)
  * Another application thread (not a reader, no defer user) that owns a call_rcu helper of its
  * own and destroys it at some point: "several helpers", one of them stopping, at fork time.
  */
-static int owner_pauses;
+static int owner_pauses, with_creator;
 
 static void *helper_owner(void *arg)
 {
@@ -275,6 +288,30 @@ static void *helper_owner(void *arg)
 	usim_set_op("owner: call_rcu_data_free");
 	F->call_rcu_data_free(c);
 	usim_probe("fork.other_thread_destroyed_its_helper");
+	return NULL;
+}
+
+/*
+ * Another application thread (never a reader) that creates the process's first auto-resize
+ * table, i.e. the resize work queue, its worker and the atfork registration, around fork time.
+ */
+static struct cds_lfht *creator_table;
+static int creator_pauses, creator_done;
+
+static void *table_creator(void *arg)
+{
+	int i;
+	(void) arg;
+	usim_thread_name("table-creator");
+	for (i = 0; i < creator_pauses; i++)
+		usleep(1000);
+	usim_set_op("creator: cds_lfht_new (first auto-resize table of the process)");
+	creator_table = cds_lfht_new_flavor(1, 1, 64, CDS_LFHT_AUTO_RESIZE | CDS_LFHT_ACCOUNTING, F->flavor, NULL);
+	if (!creator_table)
+		usim_fail("lfht-api", "cds_lfht_new failed");
+	if (!forked)
+		usim_probe("fork.other_thread_created_first_table_before_fork_returned");
+	uatomic_set(&creator_done, 1);
 	return NULL;
 }
 
@@ -351,6 +388,12 @@ static void *forker(void *arg)
 		if (F->is_qsbr)
 			F->thread_online();
 	}
+	if (with_creator) {
+		while (!uatomic_read(&creator_done))
+			usleep(1000);
+		if (cds_lfht_destroy(creator_table, NULL))
+			usim_fail("lfht-destroy", "cds_lfht_destroy of an empty table failed");
+	}
 	if (!F->is_bp)
 		F->unregister_thread();
 	return NULL;
@@ -359,7 +402,7 @@ static void *forker(void *arg)
 void scen_fork(void)
 {
 	struct script *s = &scripts[0];
-	pthread_t th, rd[3], owner;
+	pthread_t th, rd[3], owner, creator;
 	int i, nreaders = 0, forkpos, with_owner;
 	static const int cpus[] = { 1, 2, 3, 4 };
 
@@ -399,10 +442,12 @@ void scen_fork(void)
 	nested_fork = (int) usim_param("nested_fork", rnd(3) == 0);
 	with_owner = (int) usim_param("helper_owner", rnd(3) == 0);
 	owner_pauses = (int) rnd(12);
+	with_creator = (int) usim_param("table_creator", rnd(3) == 0);
+	creator_pauses = (int) rnd(16);
 	reader_calls = (int) usim_param("reader_calls", nreaders && rnd(2));
 	call_pattern = rnd(1u << 30);
 	nreaders_g = nreaders;
-	usim_describe("],\"bp_readers\":%d,\"reader_calls\":%d,\"helper_owner\":%d}", nreaders, reader_calls, with_owner);
+	usim_describe("],\"bp_readers\":%d,\"reader_calls\":%d,\"helper_owner\":%d,\"table_creator\":%d}", nreaders, reader_calls, with_owner, with_creator);
 	script_apply_skips(scripts, 1);
 	gptr = malloc(sizeof(*gptr));
 	gptr->version = 0;
@@ -416,8 +461,12 @@ void scen_fork(void)
 		pthread_create(&rd[i], NULL, bp_reader, (void *) (long) (i + 1));
 	if (with_owner)
 		pthread_create(&owner, NULL, helper_owner, NULL);
+	if (with_creator)
+		pthread_create(&creator, NULL, table_creator, NULL);
 	pthread_create(&th, NULL, forker, s);
 	pthread_join(th, NULL);
+	if (with_creator)
+		pthread_join(creator, NULL);
 	if (with_owner)
 		pthread_join(owner, NULL);
 	for (i = 0; i < nreaders; i++)
